@@ -22,7 +22,7 @@ struct C : FSM::State { void enter(PlanControl&) { *trace += "C.enter "; } void 
 static std::string observe(const FSM::Instance& m) {
 	std::string s = "active=" + std::to_string(m.activeStateId()) + " prev=" + std::to_string(m.previousTransition().destination) + "/" + std::to_string(m.previousTransition().origin)
 		+ (m.previousTransition().payload() ? "/p" + std::to_string(*m.previousTransition().payload()) : "") + " plan=[";
-	auto pl_ = m.plan(); for (auto it = pl_.begin(); it; ++it) s += std::to_string(it->origin) + ">" + std::to_string(it->destination) + ",";
+	auto pl_ = m.plan(); for (auto it = pl_.begin(); it; ++it) s += std::to_string(it->origin) + ">" + std::to_string(it->destination) + (it->payload() ? "/p" + std::to_string(*it->payload()) : "") + ",";
 	return s + "]";
 }
 static std::string script(unsigned char fill) {
@@ -43,6 +43,11 @@ static std::string script(unsigned char fill) {
 	{ FSM::Instance copy{*m}; std::string tc; trace = &tc; const std::string o1 = observe(*m), o2 = observe(copy);
 	  if (o1 != o2) { std::printf("{\"divergence\": \"copy differs from the original at the moment of copying: original %s, copy %s\"}\n", o1.c_str(), o2.c_str()); std::exit(1); }
 	  trace = &t; }
+	// a copy taken while a request (with payload) is outstanding responds to the same input like the original
+	m->changeWith<A>(5);
+	{ FSM::Instance copy{*m}; std::string tc, to; trace = &tc; copy.update(); const std::string o2 = observe(copy); trace = &to; m->update(); const std::string o1 = observe(*m);
+	  if (o1 != o2 || tc != to) { std::printf("{\"divergence\": \"copy taken with a request outstanding behaves differently: original %s [%s], copy %s [%s]\"}\n", o1.c_str(), to.c_str(), o2.c_str(), tc.c_str()); std::exit(1); }
+	  trace = &t; t += "|" + o1 + "|"; }
 	m->~InstanceT();
 	return t;
 }
